@@ -1152,3 +1152,178 @@ def site_effects(F, fn, bb):
 
 def is_effectful(e):
     return bool(e["acquire"] or e["block"] or e["nonblock"])
+
+
+# ---------------------------------------------------------------------------------------------
+# interprocedural provenance
+
+def closure_captures(F, cdef):
+    """(parent Fn, {capture name: expr in the parent}) for a closure def, from the aggregate that builds it"""
+    c = F.fn(cdef)
+    if c is None or c.kind != "Closure":
+        return None
+    pname = c.rec.get("parent")
+    p = F.fn(pname)
+    if p is None:
+        return None
+    for b in sorted(p.live_blocks()):
+        for i, s in enumerate(p.blocks[b]["stmts"]):
+            if s["k"] == "assign" and s["rv"]["k"] == "agg" and s["rv"].get("closure") == cdef:
+                e = p.origin_rvalue(s["rv"])
+                return p, dict(e[3])
+    return None
+
+
+IDENTITY_CALLS = ("clone_box", "clone", "std::sync::Arc::<T>::new", "std::boxed::Box::<T>::new", "std::sync::Arc::<T, A>::clone")
+
+
+def peel_identity(e):
+    while isinstance(e, tuple) and e and e[0] == "call" and e[2] and (e[1] in IDENTITY_CALLS or e[1].endswith("::clone_box") or e[1].endswith("Clone>::clone") or e[1] in ("std::sync::Arc::<T>::new", "std::boxed::Box::<T>::new")):
+        e = e[2][0]
+    return e
+
+
+WRAPPERS = ("&mut ", "&", "std::sync::Arc<", "std::boxed::Box<", "std::rc::Rc<", "std::pin::Pin<")
+
+
+def adt_of_type(F, ty):
+    """local ADT named by a type string, looking through references and owning pointers"""
+    if ty is None:
+        return None
+    t = ty.strip()
+    changed = True
+    while changed:
+        changed = False
+        for w in WRAPPERS:
+            if t.startswith(w):
+                t = t[len(w):].strip()
+                changed = True
+        if t.startswith("'"):
+            t = t.split(" ", 1)[1] if " " in t else t
+            changed = True
+    head = t.split("<")[0].strip()
+    return head if head in F.adts else None
+
+
+def type_of(F, fn, e):
+    if not isinstance(e, tuple) or not e:
+        return None
+    if e[0] == "param":
+        return fn.locals[e[1]]["ty"] if e[1] < len(fn.locals) else None
+    if e[0] == "field":
+        adt = adt_of_type(F, type_of(F, fn, e[1]))
+        if adt:
+            for v in F.adts[adt]["variants"]:
+                for fl in v["fields"]:
+                    if fl["name"] == e[2]:
+                        return fl["ty"]
+    return None
+
+
+def field_sources(F, adt, name):
+    """every value ever stored into field `name` of local ADT `adt`: aggregate constructions and field writes"""
+    if not hasattr(F, "_field_sources"):
+        F._field_sources = {}
+        for n, g in F.fns.items():
+            for b in sorted(g.live_blocks()):
+                for i, s in enumerate(g.blocks[b]["stmts"]):
+                    if s["k"] == "assign" and s["rv"]["k"] == "agg" and s["rv"].get("adt") in F.adts:
+                        e = g.origin_rvalue(s["rv"])
+                        for fname, x in e[3]:
+                            F._field_sources.setdefault((s["rv"]["adt"], fname), []).append((g, x))
+            for (b, i, tgt, rv, st) in g.stores():
+                if tgt[0] == "field":
+                    a = adt_of_type(F, type_of(F, g, tgt[1]))
+                    if a:
+                        F._field_sources.setdefault((a, tgt[2]), []).append((g, rv))
+    return F._field_sources.get((adt, name), [])
+
+
+def deep_trace(F, fn, e, pred, depth=0, seen=None):
+    """True iff every backward provenance of e (through identity calls, Box internals, constructor inlining,
+    closure captures, struct-field sources and parameter binding at every call site) reaches an expression
+    satisfying pred(fn, expr)"""
+    seen = seen if seen is not None else set()
+    e = peel_identity(e)
+    key = (fn.name, repr(strip_site(e)))
+    if key in seen:
+        return True          # already being established on this trace
+    if depth > 16:
+        return False
+    seen.add(key)
+    if pred(fn, e):
+        return True
+    if not isinstance(e, tuple) or not e:
+        return False
+    if e[0] == "phi":
+        return all(deep_trace(F, fn, x, pred, depth + 1, seen) for x in e[1])
+    if e[0] == "cast":
+        return deep_trace(F, fn, e[1], pred, depth + 1, seen)
+    if e[0] == "field":
+        base = peel_identity(e[1])
+        if e[2] == "pointer" and base[0] == "field" and base[2] == "0":
+            return deep_trace(F, fn, base[1], pred, depth + 1, seen)      # Box<T> internals
+        if base == ("env",):
+            cc = closure_captures(F, fn.name)
+            if cc and e[2] in cc[1]:
+                return deep_trace(F, cc[0], cc[1][e[2]], pred, depth + 1, seen)
+            return False
+        if base[0] == "field" and peel_identity(base[1]) == ("env",):
+            cc = closure_captures(F, fn.name)
+            if cc and base[2] in cc[1]:
+                return deep_trace(F, cc[0], project(peel_identity(cc[1][base[2]]), e[2]), pred, depth + 1, seen)
+            return False
+        if base[0] == "call" and base[1] in F.fns:
+            inl = inline_ctor(F, base)
+            if inl[0] == "agg":
+                return deep_trace(F, fn, project(inl, e[2]), pred, depth + 1, seen)
+        adt = adt_of_type(F, type_of(F, fn, base))
+        if adt:
+            srcs = field_sources(F, adt, e[2])
+            if not srcs:
+                return False
+            return all(deep_trace(F, g, x, pred, depth + 1, seen) for g, x in srcs)
+        return False
+    if e[0] == "param":
+        cs = [(g, bb, t) for n, g in F.fns.items() for bb, t in g.calls() if t.get("rpath") == fn.name and t["res"] == "item"]
+        if not cs:
+            return False
+        return all(deep_trace(F, g, g.op_origin(t["args"][e[1] - 1]), pred, depth + 1, seen) for g, bb, t in cs if e[1] - 1 < len(t["args"]))
+    if e[0] == "call" and e[1] in F.fns:
+        g = F.fns[e[1]]
+        r = g.origin_local(0)
+        return deep_trace(F, fn, subst_params(r, list(e[2])), pred, depth + 1, seen)
+    return False
+
+
+def deep_trace_expr(F, fn, e, depth, seen):
+    """alternatives [(fn, expr)] for where a container value comes from (one step of closure/param/ctor resolution)"""
+    e = peel_identity(e)
+    if e[0] == "field" and peel_identity(e[1]) == ("env",):
+        cc = closure_captures(F, fn.name)
+        if cc and e[2] in cc[1]:
+            return [(cc[0], cc[1][e[2]])]
+        return []
+    if e[0] == "param":
+        cs = [(g, bb, t) for n, g in F.fns.items() for bb, t in g.calls() if t.get("rpath") == fn.name and t["res"] == "item"]
+        return [(g, g.op_origin(t["args"][e[1] - 1])) for g, bb, t in cs if e[1] - 1 < len(t["args"])]
+    if e[0] == "call" and e[1] in F.fns:
+        inl = inline_ctor(F, e)
+        if inl is not e:
+            return [(fn, inl)]
+        g = F.fns[e[1]]
+        return [(fn, subst_params(g.origin_local(0), list(e[2])))]
+    if e[0] == "phi":
+        return [(fn, x) for x in e[1]]
+    if e[0] == "field":
+        outs = []
+        for g, x in deep_trace_expr(F, fn, e[1], depth + 1, seen):
+            outs.append((g, project(peel_identity(x), e[2])))
+        return outs
+    return []
+
+
+def any_all(F, alts, name, pred, depth, seen):
+    if not alts:
+        return False
+    return all(deep_trace(F, g, project(peel_identity(x), name), pred, depth + 1, seen) for g, x in alts)
